@@ -169,7 +169,10 @@ StepClauses(pre, ev, o, out, f, g2) ==
   \cup If(mut /\ ~exp /\ ok /\ (out.causes \cap {"nocontext", "readonly", "duplicate"}) = {}, "conf:invalid_accepted")
   \cup If(mut /\ exp /\ ~ok /\ o.op = "set", "C11:setter_refused")
   \cup If(mut /\ exp /\ ~ok /\ o.op # "set", "conf:unexpected_refusal")
-  \cup If(mut /\ ~ok /\ out.causes # {} /\ out.causes \subseteq {"duplicate"} /\ ~HasMro(ev, "ValueError"), "C11:dup_not_valueerror")
+  \* "adding a block whose type is already present is refused with ValueError" - whatever else is
+  \* wrong with the request or the table (the permission checks come first: nocontext, readonly)
+  \cup If(mut /\ ~ok /\ o.op = "add" /\ "duplicate" \in out.causes /\ out.causes \cap {"nocontext", "readonly"} = {}
+            /\ ~HasMro(ev, "ValueError"), "C11:dup_not_valueerror")
   \cup If(mut /\ ~ok /\ out.causes # {} /\ out.causes \subseteq {"duplicate", "full"} /\ ~HasMro(ev, "ValueError"), "conf:full_not_valueerror")
   \cup If(mut /\ ~ok /\ out.causes # {} /\ out.causes \subseteq {"badblock", "badcomment"}
             /\ (("badblock" \in out.causes) => o.bad = "text") /\ ~HasMro(ev, "ValueError"), "C13:text_not_valueerror")
